@@ -83,7 +83,9 @@ NumClose(got, want, tol, lib) ==
   CASE want.kind = "zero" -> ~p.big /\ p.micro = 0
     [] want.kind = "big"  -> /\ p.big /\ p.neg = want.neg
                              /\ IF lib THEN Abs(Lead9(p.int, Len(want.digits)) - Lead9(want.digits, Len(want.digits))) <= 200
-                                       ELSE p.int = want.digits
+                                       \* the writer may print the shortest decimal that reads back to the same double: same
+                                       \* magnitude, same first 15 digits
+                                       ELSE Len(p.int) = Len(want.digits) /\ (LET k == IF Len(p.int) < 15 THEN Len(p.int) ELSE 15 IN SubSeq(p.int, 1, k) = SubSeq(want.digits, 1, k))
     [] OTHER -> ~p.big /\ Abs(p.micro - want.micro) <= tol + (IF lib THEN 200 ELSE 0)
 TolCoord == 5001       \* {:.2}
 TolColor == 501        \* {:.3}
